@@ -530,7 +530,7 @@ fn apply_aev(t: &[SimIntf], e: AEv) -> Option<Vec<SimIntf>> {
 /// periodic check.  After each, every interface is asked for the host's addresses over each IP family
 /// it has: the answers (union over the families) must be exactly the current addresses that lie in a
 /// subnet of that interface, and nothing naming the host may carry an address of another link.
-fn run_auto(seq: &[AEv], trace: bool) -> CaseResult {
+fn run_auto(seq: &[AEv], fixed: bool, trace: bool) -> CaseResult {
     let mut res = CaseResult::default();
     let mut table = auto_topo();
     {
@@ -548,7 +548,13 @@ fn run_auto(seq: &[AEv], trace: bool) -> CaseResult {
     w.ds[0].h.set_ip_check_interval(1).unwrap();
     w.poke(0);
     w.advance(5100); // the first periodic check still follows the default interval
-    let info = svc("_t._tcp.local.", "one", "host.local.", "", 80, &[]).enable_addr_auto();
+    // fixed mode: one fixed service address in every subnet that can ever exist in these tables
+    let fixed_addrs: Vec<IpAddr> = ["10.0.0.5", "10.0.1.5", "10.0.2.5", "fd00:2::5", "10.0.4.5", "fd00::5", "10.0.3.5", "fd00:3::5"].iter().map(|a| a.parse().unwrap()).collect();
+    let info = if fixed {
+        svc("_t._tcp.local.", "one", "host.local.", &fixed_addrs.iter().map(|a| a.to_string()).collect::<Vec<_>>().join(","), 80, &[])
+    } else {
+        svc("_t._tcp.local.", "one", "host.local.", "", 80, &[]).enable_addr_auto()
+    };
     w.ds[0].h.register(info).unwrap();
     w.poke(0);
     w.advance(3000);
@@ -583,13 +589,17 @@ fn run_auto(seq: &[AEv], trace: bool) -> CaseResult {
                     }
                 }
             }
-            let want: BTreeSet<IpAddr> = table.iter().filter(|a| table.iter().any(|e| e.index == ifi && in_subnet(&a.ip, e))).map(|a| a.ip).collect();
+            let want: BTreeSet<IpAddr> = if fixed {
+                fixed_addrs.iter().filter(|a| table.iter().any(|e| e.index == ifi && in_subnet(a, e))).copied().collect()
+            } else {
+                table.iter().filter(|a| table.iter().any(|e| e.index == ifi && in_subnet(&a.ip, e))).map(|a| a.ip).collect()
+            };
             res.count("auto_answers_compared", 1);
             if got != want {
                 let missing: Vec<_> = want.difference(&got).collect();
                 let extra: Vec<_> = got.difference(&want).collect();
                 let kind = if !missing.is_empty() && extra.is_empty() { "address-missing" } else if missing.is_empty() { "stale-or-foreign-address" } else { "both" };
-                res.viols.push(viol(format!("C18|addr-auto-answers-differ-from-the-interface-table|{kind}"), format!("{tag}: interface {ifi} answers {got:?}, its addresses are {want:?}")));
+                res.viols.push(viol(format!("C18|{}-answers-differ-from-the-interface-table|{kind}", if fixed { "fixed-address-service" } else { "addr-auto" }), format!("{tag}: interface {ifi} answers {got:?}, expected {want:?}")));
             }
         }
     };
@@ -713,10 +723,10 @@ pub fn check(tier: &str) -> i32 {
     };
     let auto = FnPart {
         name: "addr-auto-follows-the-table".into(),
-        rule: format!("a service with automatic addressing on 3 interfaces (two IPv4, one dual-stack); every sequence of <= {adepth} interface events over {} kinds (second address added/removed, interface down/up, an address moved to another interface and back, IPv6 added/removed, a new interface appears/disappears, prefix length changes), one per periodic check; after each event every interface is asked for the host's addresses over each family and the answers compared with the table; sequences with an event that is not enabled are skipped (trivial)", AEVS.len()),
-        n: naseq,
-        describe: Box::new(move |i| format!("{:?}", aseq(i))),
-        run: Box::new(move |i, tr| run_auto(&aseq(i), tr)),
+        rule: format!("a service with automatic addressing, and one with a fixed address in every subnet, on 3 interfaces (two IPv4, one dual-stack); every sequence of <= {adepth} interface events over {} kinds (second address added/removed, interface down/up, an address moved to another interface and back, IPv6 added/removed, a new interface appears/disappears, prefix length changes), one per periodic check; after each event every interface is asked for the host's addresses over each family and the answers compared with the table; sequences with an event that is not enabled are skipped (trivial)", AEVS.len()),
+        n: naseq * 2,
+        describe: Box::new(move |i| format!("{:?} {}", aseq(i / 2), if i % 2 == 1 { "fixed addresses" } else { "addr-auto" })),
+        run: Box::new(move |i, tr| run_auto(&aseq(i / 2), i % 2 == 1, tr)),
     };
     rep.run_part(&auto, Duration::from_secs(if thorough { 1800 } else { 50 }));
     rep.require("addr-auto-follows-the-table", "auto_answers_compared");
